@@ -5,6 +5,7 @@ PROP = dict(
     extract=["editor", "capi_keys"],
     lean_targets=["Chewing.Props.C07", "Chewing.Props.C06CApi"],
     runs=[dict(bin="editor", args=["--profile", "c07"], args_thorough=["--profile", "c07"]),
+          dict(bin="editor", args=["--bfs", "all"], tag="editor-bfs", timeout=1500, timeout_thorough=20000),
           dict(bin="capi_props", tag="capi_props", args=["--histories", "300", "--calls", "40"], args_thorough=["--histories", "6000", "--calls", "40"])],
     scope=fn_scope("ed key", "ed select", "ed startsel", "ed cancelsel", "ed jump", "ed setopts", "ed setlayout",
                    "ed setengine", "ed learn", "ed unlearn", "ed cands", "capiops call"),
@@ -18,7 +19,7 @@ PROP = dict(
          "moved by Down/Space/j/k/jump 0..3, paged by Left/Right/PageUp/PageDown/Space; choices by digit key and select(n) "
          "incl. n beyond the list and usize::MAX; option/layout changes and removal of displayed user phrases while open, incl. removing the only (user) phrase of the "
          "highlighted range so that the open list becomes empty); "
-         "distinct = distinct record text",
+         "distinct = distinct record text Run editor-bfs (round 3, `editor --bfs all`): breadth-first exploration of the REAL editor on small closed configurations, one `ed` record per (reachable state, operation of the alphabet) with this property's oracle evaluated on every step; the configurations that closed are exhaustive ties (coverage.exhaustive_closed_worlds; Props/EditorTie.lean lifts them to every operation list over the alphabet), the others a breadth-first sample.",
     trusted_base=["hook H1 (Editor::verif_snapshot, TrieBuf::verif_snapshot) is read-only; layout / conversion answers are "
                   "recorded through wrapper objects installed through the public constructors",
                   "the oracle's independent dictionary answer is computed from the generated system layers and the raw "
